@@ -28,12 +28,16 @@ func init() {
 		{Pkg: v, Func: "getVerificationPluginMinVersion", NonNil: true},
 		{Pkg: v, Func: "getNonPluginExtendedCriticalAttributes", NonNil: true},
 		// plugin answer
-		{Pkg: fw, Type: "VerifyPlugin", Opaque: true},
+		{Pkg: fw, Type: "VerifyPlugin", Opaque: true, Nilable: true},
+		{Pkg: "github.com/notaryproject/notation-core-go/revocation", Type: "Validator", Nilable: true},
+		{Pkg: "github.com/notaryproject/notation-core-go/revocation", Type: "Revocation", Nilable: true},
 		{Pkg: fw, Func: "VerifyPlugin.GetMetadata", Oracle: true},
 		{Pkg: fw, Type: "Plugin", Opaque: true},
 		{Pkg: ".../plugin", Type: "Manager", Opaque: true},
 		{Pkg: ".../plugin", Func: "Manager.Get", Oracle: true},
 		{Pkg: v, Func: "processPluginResponse", NonNil: true},
+		// real target refused: `&envelopeContent.SignerInfo` / `&signerInfo.SignedAttributes.Expiry`: address-of a field
+		// reached through a pointer parameter (verifier/verifier.go:933, :949, :958)
 		{Pkg: v, Func: "executePlugin", Oracle: true},
 		{Pkg: v, Func: "verifyIntegrity", Oracle: true},
 		{Pkg: v, Func: "loadX509TrustStores", Oracle: true},
@@ -41,9 +45,9 @@ func init() {
 		{Pkg: v, Func: "verifyX509TrustedIdentities", Oracle: true},
 		{Pkg: v, Func: "verifyExpiry", Oracle: true},
 		{Pkg: v, Func: "verifyAuthenticTimestamp", Oracle: true},
-		// real target refused: `v.revocationCodeSigningValidator == nil` compares a one-method interface with nil (verifier/verifier.go:593)
-		{Pkg: v, Func: "(*verifier).verifyRevocation", Oracle: true},
+		{Pkg: "github.com/notaryproject/notation-core-go/signature", Func: "(*SignerInfo).AuthenticSigningTime", Oracle: true},
+		{Pkg: v, Func: "(*verifier).verifyRevocation"},
 		{Pkg: v, Func: "logVerificationResult", NonNil: true},
-		{Pkg: v, Func: "(*verifier).processSignature"},
+		{Pkg: v, Func: "(*verifier).processSignature", NonNil: true},
 	})
 }
